@@ -40,6 +40,22 @@ def shapes(depth, in_loop):
             out.append(["for", it, b])
     for b in bodies[:8]:
         out.append(["with", b])
+    # loop else-clauses and try blocks (the jumps of an else clause / of any part of a try belong to the enclosing loop)
+    elses = [[["simple"]], [["ret"]], [["raise"]]] + ([[["brk"]], [["cont"]]] if in_loop else [])
+    for e in elses:
+        for b in loop_bodies[:10]:
+            out.append(["while", "unk", b, e])
+            out.append(["while", "tt", b, e])
+            out.append(["for", "unk", b, e])
+            out.append(["for", "nonempty", b, e])
+    parts = [[["simple"]], [["ret"]], [["raise"]], [["if", "unk", [["ret"]], []]]] + ([[["brk"]], [["cont"]]] if in_loop else [])
+    for b in parts:
+        for hk in ("none", "all", "some"):
+            for hb in ([[]] if hk == "none" else parts[:3] + parts[4:]):
+                for f in [[]] + parts[:2] + parts[4:]:
+                    if hk == "none" and not f:
+                        continue
+                    out.append(["try", b, hk, hb, f])
     return out
 
 
@@ -80,10 +96,25 @@ def render(sts, indent, ctr):
             wc = {"tt": "tick() or True", "ff": "False", "unk": "c()"}[s[1]] if ctr != "static" else cond_text(s[1], ctr)
             lines.append(f"{pad}while {wc}:")
             lines += render(s[2], indent + 1, ctr)
+            if len(s) > 3 and s[3]:
+                lines.append(f"{pad}else:")
+                lines += render(s[3], indent + 1, ctr)
         elif k == "for":
             it = {"empty": "[]", "nonempty": "it1()", "unk": "it()"}[s[1]]
             lines.append(f"{pad}for _ in {it}:")
             lines += render(s[2], indent + 1, ctr)
+            if len(s) > 3 and s[3]:
+                lines.append(f"{pad}else:")
+                lines += render(s[3], indent + 1, ctr)
+        elif k == "try":
+            lines.append(f"{pad}try:")
+            lines += render(s[1], indent + 1, ctr) or [f"{pad}    pass"]
+            if s[2] != "none":
+                lines.append(f"{pad}except {'Exception' if s[2] == 'all' else 'sel()'}:")
+                lines += render(s[3], indent + 1, ctr) or [f"{pad}    pass"]
+            if s[4] or s[2] == "none":
+                lines.append(f"{pad}finally:")
+                lines += render(s[4], indent + 1, ctr) or [f"{pad}    pass"]
         elif k == "with":
             lines.append(f"{pad}with ctx():")
             lines += render(s[1], indent + 1, ctr)
@@ -144,6 +175,7 @@ def blocking_suite(ctx):
 
 PRELUDE = '''
 class _B(BaseException): pass
+class _Never(Exception): pass
 def run(bits):
     st = {"pos": 0, "steps": 0}
     def tick():
@@ -157,6 +189,9 @@ def run(bits):
     def it1():
         yield 1
         while c(): yield 1
+    def sel():
+        i = st["pos"]; st["pos"] += 1
+        return (ValueError, AssertionError) if (bits[i] if i < len(bits) else False) else _Never
     class ctx:
         def __enter__(self): return self
         def __exit__(self, *a): return False
@@ -178,12 +213,29 @@ def run_py(body_src, bits_list):
     return [env["run"](list(b)) for b in bits_list]
 
 
+def _walk(sts):
+    for st in sts:
+        yield st
+        for part in st[1:]:
+            if isinstance(part, list):
+                yield from _walk([x for x in part if isinstance(x, list)])
+
+
+def unsafe_to_run(body):
+    """a jump in a `finally` block swallows the budget exception: such a shape is executed only when it has no loop"""
+    has_loop = any(st[0] in ("while", "for") for st in _walk(body))
+    jump_in_finally = any(st[0] == "try" and any(x[0] in ("ret", "brk", "cont", "raise") for x in _walk(st[4])) for st in _walk(body))
+    return has_loop and jump_in_finally
+
+
 def exec_suite(ctx):
     """the skeleton semantics against CPython, and delete_unreachable (model) preserving it"""
     s = Suite("exec")
     r = ctx.rng("exec")
-    pool = bodies_of(2, False)
-    cases = r.sample(pool, min(len(pool), ctx.n(250, 3000)))
+    pool = [b for b in bodies_of(2, False) if not unsafe_to_run(b)]
+    cases = r.sample(pool, min(len(pool), ctx.n(400, 4000)))
+    special = [b for b in pool if any(st[0] == "try" or (st[0] in ("while", "for") and len(st) > 3) for st in _walk(b))]
+    cases += r.sample(special, min(len(special), ctx.n(300, 3000)))
     nb = 4
     all_bits = list(itertools.product([False, True], repeat=nb))
     reqs = []
@@ -210,7 +262,7 @@ def exec_suite(ctx):
                 s.disagreements.append({"stmts": body, "bits": list(bits), "model": [ans["out"], ans["pos"]], "python": list(py), "src": src,
                                         "what": "skeleton semantics differs from CPython"})
                 break
-            if (ans["out_del"], ans["pos_del"]) != (ans["out"], ans["pos"]):
+            if (ans["out_del"], ans["pos_del"]) != (ans["out"], ans["pos"]) or not ans.get("same_trace", True):
                 s.disagreements.append({"stmts": body, "bits": list(bits), "what": "model: deleteUnreachable changed the outcome (contradicts the theorem)"})
                 break
         s.nt(body)
@@ -225,9 +277,11 @@ def unreachable_oracle(ctx):
 
     s = Suite("unreachable-oracle", kind="oracle")
     r = ctx.rng("unreach")
-    pool = bodies_of(2, False)
+    pool = [b for b in bodies_of(2, False) if not unsafe_to_run(b)]
     cases = r.sample(pool, min(len(pool), ctx.n(250, 4000)))
-    # loop else-clauses and try blocks are outside the Lean fragment but inside the property: add them here
+    special = [b for b in pool if any(st[0] == "try" or (st[0] in ("while", "for") and len(st) > 3) for st in _walk(b))]
+    cases += r.sample(special, min(len(special), ctx.n(150, 2000)))
+    # hand-written extras (try / else combinations beyond the generator)
     extra = [
         "        while c():\n            tick()\n        else:\n            return 7\n        tick()",
         "        for _ in it():\n            if c():\n                break\n        else:\n            return 7\n        tick()",
